@@ -23,6 +23,17 @@ func init() { drivers["C12"] = runC12 }
 
 type merkleFn = func(*fri.Chip, []gl.Variable, []frontend.Variable, []frontend.Variable, variables.FriMerkleCap, *variables.FriMerkleProof)
 
+// forced0 reports whether a boolean constraint on exactly this variable was recorded since index from.
+func forced0(e *sym.Ctx, v frontend.Variable, from int) bool {
+	t := e.K(v)
+	for _, cn := range e.Cons[from:] {
+		if cn.Kind == sym.CBool && cn.A == t {
+			return true
+		}
+	}
+	return false
+}
+
 func merkleImpl() merkleFn { return fn[merkleFn]("fri.Chip.verifyMerkleProofToCapWithCapIndex") }
 
 // merkleCircuit: real-engine replay of one Merkle opening.
@@ -103,6 +114,25 @@ func merkleReplay(r *Run, kc *ref.BN128Consts, width, nsib int, seed int64) stri
 			}
 		case "leaf+1":
 			w.Leaf[width-1] = new(big.Int).Mod(new(big.Int).Add(leaf[width-1], big.NewInt(1)), P)
+		case "forged-bit":
+			// another leaf (digest x) with a sibling L+R-x and the field element (L-x)/(L+R-2x) in the place of
+			// the first index bit: under any arithmetic left/right selection the two children are again the
+			// committed ones (L, R); only a gadget that forces the bit to be 0 or 1 refuses it
+			w.Leaf[width-1] = new(big.Int).Mod(new(big.Int).Add(leaf[width-1], big.NewInt(1)), P)
+			l2 := append([]*ref.N{}, lref[:width-1]...)
+			l2 = append(l2, rb.Const(w.Leaf[width-1].(*big.Int)))
+			memo := map[*ref.N]*big.Int{}
+			x := ref.Eval(rb.MerkleFold(rb.BNPermConcrete(kc), l2, nil, nil), nil, memo)
+			d := ref.Eval(rb.MerkleFold(rb.BNPermConcrete(kc), lref, nil, nil), nil, memo)
+			L, Rr := d, sib[0]
+			if bits[0].Sign() != 0 {
+				L, Rr = sib[0], d
+			}
+			sum := new(big.Int).Add(L, Rr)
+			w.Siblings[0] = new(big.Int).Mod(new(big.Int).Sub(sum, x), R)
+			den := new(big.Int).Mod(new(big.Int).Sub(sum, new(big.Int).Lsh(x, 1)), R)
+			num := new(big.Int).Mod(new(big.Int).Sub(L, x), R)
+			w.Bits[0] = num.Mul(num, den.ModInverse(den, R)).Mod(num, R)
 		}
 		c := &merkleCircuit{Leaf: make([]frontend.Variable, width), Bits: make([]frontend.Variable, nsib), CapBits: make([]frontend.Variable, 4), Cap: make([]frontend.Variable, 16), Siblings: make([]frontend.Variable, nsib)}
 		return c, w
@@ -111,7 +141,11 @@ func merkleReplay(r *Run, kc *ref.BN128Consts, width, nsib int, seed int64) stri
 	first := int(rnd("cap", 0, P).Uint64() % 16)
 	for k := 0; k < 16; k++ {
 		capIdx = (first + k) % 16
-		for _, mut := range []string{"", "wrong-slot", "flip-bit", "leaf+1"} {
+		muts := []string{"", "wrong-slot", "flip-bit", "leaf+1"}
+		if nsib > 0 && k == 0 {
+			muts = append(muts, "forged-bit")
+		}
+		for _, mut := range muts {
 			c, w := mk(mut)
 			var err error
 			pm := catchPanic(func() { quiet(func() { err = test.IsSolved(c, w, R) }) })
@@ -153,6 +187,7 @@ func runC12(r *Run) {
 			wd, ns := wd, ns
 			name := fmt.Sprintf("merkle[width=%d,siblings=%d]", wd, ns)
 			var extra []string
+			unforced := 0
 			c := fieldCase{name: name, bigMod: true, termCuts: true, bound: fmt.Sprintf("leaf of %d canonical elements, %d siblings, all index bits / cap bits in {0,1}, 16 cap entries, all values symbolic; permutation uninterpreted", wd, ns), build: func(fc *fctx) ([]frontend.Variable, []*ref.N) {
 				cm := base.Common
 				chip := fri.NewChip(fc.api, &cm, &cm.FriParams)
@@ -190,13 +225,24 @@ func runC12(r *Run) {
 				merkleImpl()(chip, leaf, bits, capb, cap, &variables.FriMerkleProof{Siblings: sib})
 				var outs []frontend.Variable
 				if fc.e != nil {
+					forced := map[*sym.Term]bool{}
 					for _, cn := range fc.e.Cons[before:] {
 						switch {
 						case cn.Kind == sym.CEq:
 							outs = append(outs, cn.A, cn.B)
 						case cn.Kind == sym.CBool && cn.A.Op == sym.OpAtom && cn.A.Kind == "bit":
+							forced[cn.A] = true
+							_ = forced
 						default:
 							extra = append(extra, fmt.Sprintf("constraint kind %d at %s", cn.Kind, firstFrame(cn.Site)))
+						}
+					}
+				}
+				if fc.e != nil {
+					unforced = 0
+					for _, b := range append(append([]frontend.Variable{}, bits...), capb...) {
+						if !forced0(fc.e, b, before) {
+							unforced++
 						}
 					}
 				}
@@ -210,6 +256,16 @@ func runC12(r *Run) {
 			}
 			if len(extra) > 0 {
 				r.Infra("%s: acceptance involves conditions beyond 'digest == selected cap entry': %v", name, extra)
+			}
+			if unforced > 0 {
+				// the case above takes the bits from {0,1}; the gadget itself must refuse anything else (the
+				// selection would otherwise be an affine map a prover can steer): confirm with a forged opening
+				what := fmt.Sprintf("%s: %d of the index / cap bits are not forced to be 0 or 1 inside the gadget", name, unforced)
+				if msg := merkleReplay(r, kc, wd, ns, r.Seed); msg != "" {
+					r.addViolationWithReplay("index bits not forced boolean in the Merkle gadget", what+"; "+msg, map[string]any{"kind": "merkle", "width": wd, "siblings": ns, "seed": r.Seed}, "gnark test engine on the real gadget with a concrete tree built with the native reference hash")
+				} else {
+					r.Infra("%s -- but the forged opening is rejected by the real gadget", what)
+				}
 			}
 			// any functional disagreement is replayed on the real gadget with concrete trees
 			for i := range r.obs {
